@@ -108,9 +108,9 @@ func VerifC15OverlapWhole() {
 	wf.AddLambdaNode("m", InvokableLambda(id)).AddInput(START)
 	n := wf.AddLambdaNode("n", InvokableLambda(id))
 	wholeFirst := vchoose("wholeFirst", 2) == 1
-	fromField := vchoose("fromField", 2) == 1 // the whole-input mapping may still select a source field
+	fromField := vchoose("fromField", 2) == 1         // the whole-input mapping may still select a source field
 	wholeIndirect := vchoose("wholeIndirect", 2) == 1 // the whole output may arrive over a data-only input
-	fieldKind := vchoose("fieldKind", 3)             // the field: data-only from START, direct from START, or a second whole data-only input
+	fieldKind := vchoose("fieldKind", 3)              // the field: data-only from START, direct from START, or a second whole data-only input
 	whole := func() {
 		var ms []*FieldMapping
 		if fromField {
